@@ -213,11 +213,50 @@ def canon_force(val):
     return "unexpected:%r" % (val,)
 
 
+FOREIGN = 987654          # key of a node that is in a molecule but not in the engine
+
+
+def caller_molecules(case):
+    """the molecules of the CALLER for the bulk position query `update_positions_in_molecules`: one graph per molecule
+    index, its nodes = the node keys of that molecule; residues with supplied coordinates carry them (their own
+    arrays, not views of the engine's table); one extra node per molecule is unknown to the engine"""
+    import networkx as nx
+    nmol = 1 + max(mol for mol, _ in case["nodes"])
+    mols = [nx.Graph() for _ in range(nmol)]
+    for mol, key in case["nodes"]:
+        mols[mol].add_node(key)
+    for g, p in case["init"]:
+        mol, key = case["nodes"][g]
+        mols[mol].nodes[key]["position"] = np.array([float(fr(c)) for c in p])
+    for graph in mols:
+        graph.add_node(FOREIGN, position=np.array([0.5, 0.25, 0.125]))
+    return mols
+
+
+def handed_back(mols, nodes):
+    """what the molecules carry after the bulk query: rows like `public_positions`; the positions are then replaced by
+    copies (a caller that keeps its own arrays), so that a later removal in the engine cannot reach them by aliasing"""
+    table, foreign_ok = [], True
+    for g, (mol, key) in enumerate(nodes):
+        data = mols[mol].nodes[key]
+        if "position" not in data:
+            continue
+        row = np.array(data["position"], dtype=float).reshape(-1)
+        data["position"] = row.copy()
+        if not np.all(np.isinf(row)):
+            table.append([int(g), safe_vec(row)])
+    for graph in mols:
+        if list(graph.nodes[FOREIGN]["position"]) != [0.5, 0.25, 0.125]:
+            foreign_ok = False
+    return table, foreign_ok
+
+
 def run_impl(case, cls=None):
     """Execute the history on the real engine; one canonical output per query op."""
     engine = make_engine(case, cls)
     nodes = case["nodes"]
     out = []
+    mols = caller_molecules(case)
     for op in case["ops"]:
         k = op["k"]
         try:
@@ -245,12 +284,14 @@ def run_impl(case, cls=None):
                 out.append(None if np.isnan(val) else Fraction(float(val)))
             elif k == "snap":
                 table = public_positions(engine, nodes)          # public get_point calls
+                engine.update_positions_in_molecules(mols)       # the bulk position query
         except Exception as err:  # pylint: disable=broad-except
             # raised by a PUBLIC method of the code under test (nothing else is inside this try-block)
             out.append(dict(raised=type(err).__name__, at=k, msg=str(err)[:120]))
             break
         if k == "snap":
-            out.append(dict(positions=table, internal=internal_snapshot(engine)))
+            back, foreign_ok = handed_back(mols, nodes)
+            out.append(dict(positions=table, internal=internal_snapshot(engine), handback=back, foreign_ok=foreign_ok))
     return out
 
 
@@ -349,6 +390,16 @@ def judge(ctx, case, impl, answer, stream, oracle=True):
                 internal_agree = False
                 internal_detail = (got["internal"], msnap["internal"])
             spec_pos = [[g, list(p)] for g, p in ans["spec"]]
+            # the bulk query `update_positions_in_molecules`: every residue of the engine is handed its row (undefined
+            # after removal: no stale coordinate survives in the molecule), nodes unknown to the engine are untouched
+            if "handback" in got:
+                if got["handback"] != msnap["positions"] or not got.get("foreign_ok", True):
+                    agree = False
+                if oracle and failure is None and (got["handback"] != spec_pos or not got.get("foreign_ok", True)):
+                    failure = ("stale-handback", "update_positions_in_molecules left the molecules with %s at snapshot #%d; "
+                               "'last position given / undefined after removal' is %s%s"
+                               % (diff_small(got["handback"], spec_pos), i, "(rows that differ shown)",
+                                  "" if got.get("foreign_ok", True) else "; a node unknown to the engine was changed"))
             if oracle and failure is None and got["positions"] != spec_pos:
                 failure = ("stale-position", "position table (get_point of every node) differs from 'last position "
                            "given / none after removal' at snapshot #%d: %s" % (i, diff_small(got["positions"], spec_pos)))
